@@ -39,6 +39,19 @@ impl Rej {
 
 type Svc = Box<dyn Fn(TestRequest) -> (u16, Vec<u8>)>;
 
+/// Percent-encode a dataset name for use as one URL path segment (what an HTTP client has to do).
+pub fn encode_segment(s: &str) -> String {
+    let mut out = String::new();
+    for b in s.bytes() {
+        if b.is_ascii_alphanumeric() || matches!(b, b'-' | b'_' | b'.' | b'~') {
+            out.push(b as char);
+        } else {
+            out.push_str(&format!("%{:02X}", b));
+        }
+    }
+    out
+}
+
 fn decode<T: DeserializeOwned>(r: (u16, Vec<u8>)) -> Result<T, Rej> {
     if r.0 != 200 {
         return Err(Rej { status: r.0, note: String::from_utf8_lossy(&r.1).into_owned() });
@@ -127,7 +140,7 @@ impl UistServer {
         match &self.svc {
             None => self.with_state_mut(|s| s.init(dataset.to_string())).ok_or_else(Rej::none),
             Some(svc) => {
-                let r = svc(TestRequest::get().uri(&format!("/init/{dataset}")));
+                let r = svc(TestRequest::get().uri(&format!("/init/{}", encode_segment(dataset))));
                 decode::<UInitResp>(r).map(|x| x.backtest_id)
             }
         }
@@ -299,7 +312,7 @@ impl JuraServer {
         match &self.svc {
             None => self.with_state_mut(|s| s.init(dataset.to_string())).ok_or_else(Rej::none),
             Some(svc) => {
-                let r = svc(TestRequest::get().uri(&format!("/init/{dataset}")));
+                let r = svc(TestRequest::get().uri(&format!("/init/{}", encode_segment(dataset))));
                 decode::<JInitResp>(r).map(|x| x.backtest_id)
             }
         }
